@@ -134,6 +134,7 @@ package ice
 //@   site call NewCandidateHost#1 assert transport-is-enabled: has(networks, arg0.Network) && arg0.Network == network
 //@   site call NewCandidateHost#1 assert tcp-host-candidates-are-passive-and-need-a-tcp-type: arg0.Network == "tcp" ==> arg0.TCPType == TCPTypePassive && a.tcpMux != nil && exists j int :: 0 <= j && j < len(networkTypes) && (old(networkTypes[j]) == NetworkTypeTCP4 || old(networkTypes[j]) == NetworkTypeTCP6)
 //@   site call NewCandidateHost#1 assert mdns-gather-mode-publishes-the-name-not-the-ip: a.mDNSMode == MulticastDNSModeQueryAndGather ==> arg0.Address == a.mDNSName
+//@   site call NewCandidateHost#1 assert location-tracking-mark-only-outside-mdns-gather-mode: a.mDNSMode == MulticastDNSModeQueryAndGather ==> !arg0.IsLocationTracked
 //@   site call NewCandidateHost#1 assert port-is-the-sockets-port: arg0.Port == connAndPort.port && arg0.Component == ComponentRTP
 
 // Interface / address filter: every address in the result passed the loopback
@@ -194,3 +195,19 @@ package ice
 //@   site call gatherCandidatesSrflx$1#1 assert only-udp-network-types: networkType != NetworkTypeTCP4 && networkType != NetworkTypeTCP6
 //@   site call gatherCandidatesSrflx$1#2 assert filtered-base-comes-from-the-scan: useFilteredLocalAddrs && 0 <= j && j < len(localAddrs)
 //@   site call gatherCandidatesSrflx$1#2 assert only-udp-network-types-2: networkType != NetworkTypeTCP4 && networkType != NetworkTypeTCP6
+
+// Location tracking (RFC 8445 5.1.1.1): an IPv6 link-local address is marked, the mark is
+// what the candidate reports, and marked candidates are neither announced nor listed.
+//@ func (*candidateBase).filterForLocationTracking
+//@   props C18
+//@   pure
+//@   ensures reports-the-mark: result == c.isLocationTracked
+
+//@ func (*Agent).GetLocalCandidates$1
+//@   props C18
+//@   opt nosafety
+//@   ghostvar tracked bool = true
+//@   ghostvar asked int = 0
+//@   site call filterForLocationTracking#1 ghost tracked := result
+//@   site call filterForLocationTracking#1 ghost asked := recv.payload
+//@   site call append#1 assert location-tracked-candidates-are-never-listed: !tracked && len(arg1) == 1 && arg1[0].payload == asked
